@@ -719,8 +719,11 @@ def why_rejected(spec, v, depth=0):
         if not r.endswith('.type'):
           return f'Union.untyped-candidate-rejects/{r}'
     for c in spec.candidates:
-      if isinstance(c, T.Float) and isinstance(v, int):
-        r = why_rejected(c, v, depth + 1)
+      # First candidate for whose value type a converter exists (int -> float
+      # is the only built-in one the generators produce); it may be a Float or
+      # an Enum of floats.
+      if c.value_type is float and isinstance(v, int):
+        r = why_rejected(c, float(v), depth + 1)
         return f'Union.converted-candidate-rejects/{r}' if r else None
     return 'Union.no-candidate'
   return None
